@@ -12,6 +12,7 @@ class Rec:
         self.work, self.sim, self.name = work, sim, name
         self.events = []
         self.inside = None
+        self.open_t = sim.now
 
     def _enter(self, kind, v=None):
         sim = self.sim
@@ -20,7 +21,7 @@ class Rec:
             self.work.user_overlap = (self.name, self.inside, me, kind)
         prev = self.inside
         self.inside = me
-        self.events.append((sim.tick(), kind, me))
+        self.events.append((sim.tick(), kind, me, sim.now))
         sim.yield_point("user.cb")
         sim.yield_point("user.cb2")
         self.inside = prev
@@ -148,7 +149,8 @@ class Prop:
             "pre-emptions (site-first sampling over a dry run, focused on the operator's files). Checked: (a) no thread enters the "
             "subscriber's on_next/on_error/on_completed (the downstream auto-detach observer, traced at call/return) while another "
             "thread is inside; (b) no thread enters a user callback while another is inside; (c) every recorder (root and windows) sees "
-            "on_next* (on_error|on_completed)?; (d) no deadlock. Distinct = (operator, scripts, context-switch sequence); non-trivial = a "
+            "on_next* (on_error|on_completed)?; (d) no deadlock; (e) window_with_time_or_count: every window but the last is full or at least "
+            "the time span old when it closes (a stale timer of an earlier window must not close a later one). Distinct = (operator, scripts, context-switch sequence); non-trivial = a "
             "forced pre-emption fired and at least two source threads delivered something.")
     assumptions = ["each source emits serially from its own thread (the statement's precondition)", "line-level pre-emption granularity"]
     stubs = ["threading.RLock/Lock/Condition/Thread (simulated)", "wall clock -> simulated clock"]
@@ -212,6 +214,19 @@ class Prop:
                 if k in "EC" and i != len(ks) - 1:
                     bad("grammar", "recorder %s received %r" % (r.name, ks))
                     break
+        if sc["op"] == "window_with_time_or_count":
+            # a window other than the last one was closed by its rule: it is full, or at least `span` old (timers never fire early)
+            span_us, cnt = int(round(sc.get("span", 0.005) * 1e6)), sc.get("count", 2)
+            wins = w.recs[1:]
+            for r in wins[:-1]:
+                closes = [e for e in r.events if e[1] == "C"]
+                n = sum(1 for e in r.events if e[1] == "N")
+                if closes and n != cnt and closes[0][3] - r.open_t < span_us:
+                    bad("window-closed-early", "window %s was closed %d us after it opened holding %d element(s): neither %d elements nor %d us old" % (
+                        r.name, closes[0][3] - r.open_t, n, cnt, span_us))
+                    break
+            if len(wins) > 1:
+                out.probes["window_rule_checked"] += 1
         if w.ado_overlap:
             bad("observer-overlap", "downstream observer of %s: thread %s entered %s while thread %s was inside the observer" % (
                 w.ado_overlap[0], w.ado_overlap[2], w.ado_overlap[3], w.ado_overlap[1]))
